@@ -18,6 +18,10 @@ Statement level
     so early-return style and nested if/else style coincide
   * `if k in X: v = X[k] else: v = d`            ->  `v = X.get(k, d)`
   * `if c: pass else: B` -> `if not c: B`; stray `pass` removed
+  * with both arms present the positive test is kept: `if a is not None: A else: B` -> `if a is None: B else: A`
+    (negative = not / != / not in / is not / >= / <= / a disjunction whose negation is positive)
+  * `X = []` + `for t in it: [if c:] X.append(e)` -> `X = [e for t in it if c]` (likewise dict / set), when the
+    loop variable is not read afterwards in the block
   * `X = {..}` directly followed by `X['k'] = v` (call-free values) -> the key joins the display
 Line numbers of the original nodes are kept on the rewritten ones.
 """
@@ -223,6 +227,62 @@ def _fold_dict_stores(stmts):
     return out
 
 
+def _mentions(node, name):
+    return any(isinstance(n, ast.Name) and n.id == name for n in ast.walk(node))
+
+
+def _loops_to_comprehensions(stmts):
+    """`X = []` / `{}` / `set()` directly followed by a loop whose whole body appends to X (optionally under one
+    `if`)  ->  X = [e for t in it if c]   (only when neither e nor it mention X and the loop has no else)"""
+    out = []
+    i = 0
+    while i < len(stmts):
+        s = stmts[i]
+        nxt = stmts[i + 1] if i + 1 < len(stmts) else None
+        new = None
+        if isinstance(s, ast.Assign) and len(s.targets) == 1 and isinstance(s.targets[0], ast.Name) and isinstance(nxt, ast.For) and not nxt.orelse and len(nxt.body) == 1:
+            X = s.targets[0].id
+            kind = None
+            if isinstance(s.value, ast.List) and not s.value.elts:
+                kind = "list"
+            elif isinstance(s.value, ast.Dict) and not s.value.keys:
+                kind = "dict"
+            elif isinstance(s.value, ast.Call) and isinstance(s.value.func, ast.Name) and s.value.func.id == "set" and not s.value.args and not s.value.keywords:
+                kind = "set"
+            inner = nxt.body[0]
+            conds = []
+            if isinstance(inner, ast.If) and not inner.orelse and len(inner.body) == 1:
+                conds = [inner.test]
+                inner = inner.body[0]
+            elt = key = None
+            if kind == "list" and isinstance(inner, ast.Expr) and isinstance(inner.value, ast.Call) and isinstance(inner.value.func, ast.Attribute) and inner.value.func.attr == "append" and isinstance(inner.value.func.value, ast.Name) and inner.value.func.value.id == X and len(inner.value.args) == 1 and not inner.value.keywords:
+                elt = inner.value.args[0]
+            elif kind == "set" and isinstance(inner, ast.Expr) and isinstance(inner.value, ast.Call) and isinstance(inner.value.func, ast.Attribute) and inner.value.func.attr == "add" and isinstance(inner.value.func.value, ast.Name) and inner.value.func.value.id == X and len(inner.value.args) == 1:
+                elt = inner.value.args[0]
+            elif kind == "dict" and isinstance(inner, ast.Assign) and len(inner.targets) == 1 and isinstance(inner.targets[0], ast.Subscript) and isinstance(inner.targets[0].value, ast.Name) and inner.targets[0].value.id == X:
+                key, elt = inner.targets[0].slice, inner.value
+            if elt is not None and not any(_mentions(x, X) for x in [elt, nxt.iter] + conds + ([key] if key is not None else [])) and not any(isinstance(n, (ast.Yield, ast.YieldFrom, ast.Await)) for n in ast.walk(nxt)):
+                gen = ast.comprehension(target=nxt.target, iter=nxt.iter, ifs=conds, is_async=0)
+                if kind == "list":
+                    comp = ast.ListComp(elt=elt, generators=[gen])
+                elif kind == "set":
+                    comp = ast.SetComp(elt=elt, generators=[gen])
+                else:
+                    comp = ast.DictComp(key=key, value=elt, generators=[gen])
+                new = _loc(ast.Assign(targets=s.targets, value=_loc(comp, nxt)), s)
+                new._loop_targets = [n.id for n in ast.walk(nxt.target) if isinstance(n, ast.Name)]
+        if new is not None:
+            # the loop variable must not be read afterwards in this block (comprehension variables do not leak)
+            later = stmts[i + 2:]
+            if not any(_mentions(x, t) for x in later for t in new._loop_targets):
+                out.append(ast.fix_missing_locations(new))
+                i += 2
+                continue
+        out.append(s)
+        i += 1
+    return out
+
+
 def canon_block(stmts):
     """bottom-up: guard clauses become if/else nests; negated tests are swapped"""
     out = []
@@ -231,6 +291,7 @@ def canon_block(stmts):
     if len(stmts) > 1:
         stmts = [s for s in stmts if not isinstance(s, ast.Pass)] or stmts[:1]
     stmts = _fold_dict_stores(stmts)
+    stmts = _loops_to_comprehensions(stmts)
     # from the end: `if c: A(exits)` + rest -> if c: A else: rest
     res = []
     for s in reversed(stmts):
@@ -253,12 +314,32 @@ def _only_pass(stmts):
     return bool(stmts) and all(isinstance(x, ast.Pass) for x in stmts)
 
 
+_NEGATIVE_OPS = (ast.NotEq, ast.NotIn, ast.IsNot, ast.GtE, ast.LtE)
+
+
+def _negative(t):
+    """the test is the 'negative' member of a pair (t, not t): with both arms present the positive one is kept"""
+    if isinstance(t, ast.UnaryOp) and isinstance(t.op, ast.Not):
+        return True
+    if isinstance(t, ast.Compare) and len(t.ops) == 1 and isinstance(t.ops[0], _NEGATIVE_OPS):
+        return True
+    if isinstance(t, ast.BoolOp) and isinstance(t.op, ast.Or):
+        # De Morgan dual: a disjunction whose negation is a conjunction of simple tests
+        return True
+    return False
+
+
 def swap_if(s):
     t = s.test
     if _only_pass(s.orelse):
         s = _loc(ast.If(test=s.test, body=s.body, orelse=[]), s)
     if _only_pass(s.body) and s.orelse:
         return swap_if(_loc(ast.If(test=ExprCanon().visit(negate(copy.deepcopy(t))), body=s.orelse, orelse=[]), s))
+    if s.orelse and _negative(t):
+        neg = ExprCanon().visit(ast.fix_missing_locations(negate(copy.deepcopy(t))))
+        if not _negative(neg):
+            s = _loc(ast.If(test=neg, body=s.orelse, orelse=s.body), s)
+            t = s.test
     if isinstance(t, ast.UnaryOp) and isinstance(t.op, ast.Not) and s.orelse:
         return _loc(ast.If(test=t.operand, body=s.orelse, orelse=s.body), s)
     # if k in X: v = X[k] else: v = d  ->  v = X.get(k, d)
